@@ -37,7 +37,8 @@ STUBS = []
 PROBES = ['gen_on_existing_rejected', 'gen_force', 'gen_force_other_reference', 'upd_new', 'upd_existing_rejected',
           'upd_force_existing', 'upd_force_new', 'load_unregistered_rejected', 'skew_rejected', 'graph_params_alias',
           'auto_exception_alias', 'symlink', 'natural_failure', 'three_or_more_pools', 'invalid_protein_as_noncoding',
-          'skew_rejected_plain_load', 'gen_force_on_old_layout', 'proteome_with_x_or_stop']
+          'skew_rejected_plain_load', 'gen_force_on_old_layout', 'proteome_with_x_or_stop',
+          'load_after_failed_invocation']
 RULE = ('case = two generated references R_A/R_B; history = Hypothesis rule sequence (<=12 operations) over '
         'gen(R,P,force,symlink,flag) / upd(P,force) / load(P) / load_plain (parser path) / skew(field incl. pre-1.3.0 metadata layout) / unskew with P from an alphabet of 9 '
         'cleavage-parameter sets (two pairs alias each other: graph parameters only, and exception auto vs '
@@ -45,8 +46,9 @@ RULE = ('case = two generated references R_A/R_B; history = Hypothesis rule sequ
         'with the model.  distinct = distinct (model state, operation, outcome class) transitions')
 ASSUMPTIONS = [
     'expected pool = common.load_references on the pristine raw files with the same arguments (on-the-fly path)',
-    'crash atomicity of the directory is not demanded: after an invocation that failed half-way nothing is '
-    'checked until a later generateIndex --force succeeds',
+    'crash atomicity of the directory is not demanded: after an invocation that failed half-way only one thing is '
+    'checked until a later generateIndex --force succeeds -- a load that succeeds must return a pool and a genome of '
+    'one and the same reference',
     'every generateIndex works on its own copy of the reference files (create_gtf_copy can write through an '
     'annotation.gtf symlink into the source GTF)',
 ]
@@ -370,7 +372,29 @@ class Sim:
         self.trans.append((before, 'upd', outcome))
         self.check_all(f'upd({pname},force={force})')
 
+    def unclean_load(self, pname):
+        """After an invocation that failed half-way nothing is demanded of the directory -- except that a load which
+        SUCCEEDS is faithful: the pool it returns is the pool of the very reference whose genome it returns."""
+        ctx = self.ctx
+        r = self.inv_load(pname, everything=True)
+        self.probe('load_after_failed_invocation')
+        if r[0] != 'ok':
+            return
+        genome, _, _, pool = r[1]
+        got = frozenset(pool or [])
+        g = {k: str(v.seq) for k, v in genome.items()}
+        owners = [ref for ref in ctx.refs if ctx.refdata(ref, False)['genome'] == g]
+        if not any(got == ctx.pool_fly(ref, pname, flag) for ref in owners for flag in (False, True)):
+            raise Violation('unclean-load', f'unclean-load:{pname}',
+                            {'params': pname, 'genome_of_reference': owners, 'n_pool': len(got),
+                             'pool_equals_reference': [ref for ref in ctx.refs for flag in (False, True)
+                                                       if got == ctx.pool_fly(ref, pname, flag)]})
+        self.probe('load_after_failed_invocation_succeeded')
+
     def op_load(self, pname):
+        if self.exists and not self.clean and not self.skewed:
+            self.unclean_load(pname)
+            return
         if not (self.exists and self.clean):
             return
         before = self.state_sig()
